@@ -173,9 +173,20 @@ def feed_problem(vals, cuts, P=3):
     PL.fresh_state()
     for g in (cr.GLOBAL_CARDINALITY_STORAGE, cr.GLOBAL_COUNTS_STORAGE):
         g.clear()
-    o, _ = scaled(HLL, P)
-    cap = o.warmup_size
-    cr.GLOBAL_CARDINALITY_STORAGE['fa'] = o
+    made = []
+
+    def factory(*a, **k):
+        # the sketch is constructed the way compute_cardinalities constructs it (its own arguments), then re-scaled: p -> P with the
+        # warm-up share of the registers it was built with; the capacity the STATEMENT gives it is 2^18 out of its m registers
+        o = HLL(*a, **k)
+        share, m0 = o.warmup_size / o.m, o.m
+        o.p, o.m = P, 1 << P
+        o.warmup_size = int(o.m * share)
+        o.width = 64 - P
+        made.append(int((1 << P) * 2 ** 18 / m0))
+        return o
+    saved_cls = cr.HyperLogLog
+    cr.HyperLogLog = factory
     pb = types.SimpleNamespace(set_description=lambda *a, **k: None)
     pos, seen = 0, set()
     try:
@@ -184,10 +195,12 @@ def feed_problem(vals, cuts, P=3):
             pos += k
             cr.compute_cardinalities(pd.DataFrame({'fa': part}), pb, 30000)
             seen |= {v for v in part if v != ''}
+            cap = made[0]
             got = len(cr.GLOBAL_CARDINALITY_STORAGE['fa'])
             if len(seen) <= cap and got != len(seen):
                 return f'after the batches {cuts[:cuts.index(k) + 1] if cuts.count(k) == 1 else "up to row " + str(pos)} the sketch (capacity {cap}) reports {got} distinct values, the column has {len(seen)}'
     finally:
+        cr.HyperLogLog = saved_cls
         for g in (cr.GLOBAL_CARDINALITY_STORAGE, cr.GLOBAL_COUNTS_STORAGE):
             g.clear()
     return None
